@@ -200,6 +200,9 @@ class Findings:
         if signature in self.known:
             self.seen_known.setdefault(signature, what)
             return "known"
+        if any(sig == signature for sig, _, _ in self.violations):
+            self.duplicates = getattr(self, "duplicates", 0) + 1        # one VIOLATION line per signature
+            return "violation"
         path = write_replay(self.pid, signature, what, replay_files or {}, cmd)
         self.violations.append((signature, what, path))
         return "violation"
